@@ -28,10 +28,10 @@ TECHNIQUE = ('Coq proof over a control-flow model (answer, effects) of the tile 
 LEVEL_TEXT = ('Theorems for every grid, layer configuration, cache state and request (any integer or non-numeric address '
               'component, any format / dimension value, any bbox / size) over the Gallina model of TileServer.map, KMLServer.map, '
               'WMTSServer.tile/featureinfo (KVP, REST), TileLayer.render, WMSServer.check_map_request, CacheMapLayer.get_map/_image '
-              'and TileManager.load_tile_coords (single and meta tiles, meta_buffer 0); tied to the code by running the real '
+              'and TileManager.load_tile_coords (single tiles, meta tiles with meta_buffer, minimize_meta_requests); tied to the code by running the real '
               'application on generated configurations and comparing answers and cache/upstream operations.')
-LEVEL_NOTE = ('Trusted: Coq kernel; hand-written model Limits.v (+Grid.v); the correspondence harness. Not modelled: meta_buffer > 0, '
-              'minimize_meta_requests, bulk_meta_tiles, rescale_tiles, coverages / authorization limits, reprojection (requests are in the '
+LEVEL_NOTE = ('Trusted: Coq kernel; hand-written model Limits.v (+Grid.v); the correspondence harness. Not modelled: '
+              'bulk_meta_tiles, rescale_tiles, coverages / authorization limits, reprojection (requests are in the '
               'grid SRS), seeding. IEEE rounding not modelled (exact lattice: bit-exact; realistic grids: 1e-6 tolerance on bboxes). '
               'WMTS GetFeatureInfo does not compare FORMAT with the layer format (pinned by the test-suite of mapproxy: documented, _refuted theorem); dimension values are validated as for GetTile.')
 DESIGN_REF = 'DESIGN.md section 5, C16'
@@ -41,7 +41,7 @@ RULE = ('case = (layer configuration incl. grid, cache state, service, request);
 TRUSTED = ['model Limits.v hand-written from service/tile.py, service/wmts.py, service/kml.py, service/wms.py, layer.py, cache/tile.py, grid.py',
            'tie = differential run of the real WSGI app vs the model (vm_compute); request SRS = grid SRS only']
 ASSUMPTIONS = ['upstream answers every GetMap with a cacheable image (no source errors)',
-               'no coverage / authorization callback configured', 'meta_buffer = 0']
+               'no coverage / authorization callback configured']
 EXPLANATION = ('refusal-before-effects and effects-inside-grid proved for all requests over the model; real application compared on '
                'boundary addresses, limits, malformed values under a recording upstream and cache')
 
@@ -178,6 +178,7 @@ def layer_opts(rng):
                                  'elevation': (['Winter', 'summer', 'X1'], 'Winter')}]),
             'queryable': rng.random() < 0.7,
             'mixed': rng.random() < 0.3,       # cache `format: mixed`: the layer still offers png only
+            'buffer': rng.choice([0, 0, 0, 3, 10, 25]),    # meta_buffer in pixels
             'minimize': rng.random() < 0.35,   # minimize_meta_requests: one upstream request for all missing tiles
             'format': 'png'}
 
@@ -193,7 +194,7 @@ REAL_GRIDS = [
 
 
 class App(object):
-    def __init__(self, ctx, specs, max_pixels, srs_extent=None):
+    def __init__(self, ctx, specs, max_pixels, srs_extent=None, info_formats=True):
         """specs: list of (grid name, grid yaml dict, layer options, skip_first, skip_odd).
         srs_extent: explicit bbox of services.wms.bbox_srs for EPSG:3857 (integers) or None."""
         import yaml
@@ -203,12 +204,14 @@ class App(object):
         self.tmp = ctx.tmpdir('app')
         self.max_pixels = max_pixels
         self.srs_extent = srs_extent
+        # services.wmts.featureinfo_formats is optional: without it the service offers no InfoFormat at all
+        self.info_formats = {'txt': 'text/plain'} if info_formats else {}
         conf = {
             'services': {
                 'tms': {'use_grid_names': True},
                 'kml': {'use_grid_names': True},
-                'wmts': {'kvp': True, 'restful': True,
-                         'featureinfo_formats': [{'mimetype': 'text/plain', 'suffix': 'txt'}]},
+                'wmts': dict({'kvp': True, 'restful': True},
+                             **({'featureinfo_formats': [{'mimetype': 'text/plain', 'suffix': 'txt'}]} if info_formats else {})),
                 'wms': {'srs': ['EPSG:3857', 'EPSG:4326'], 'image_formats': ['image/png', 'image/jpeg'],
                         'md': {'title': 'c16'}},
             },
@@ -229,7 +232,7 @@ class App(object):
         for gname, gspec, opts, _sf, _so in specs:
             conf['grids'][gname] = gspec
             cache = {'grids': [gname], 'sources': ['upq' if opts['queryable'] else 'up'], 'format': 'image/' + opts['format'],
-                     'meta_size': list(opts['meta']), 'meta_buffer': 0, 'cache': {'type': 'file'}}
+                     'meta_size': list(opts['meta']), 'meta_buffer': int(opts.get('buffer', 0)), 'cache': {'type': 'file'}}
             if opts['max_tiles'] is not None:
                 cache['max_tile_limit'] = opts['max_tiles']
             if opts.get('minimize'):
@@ -252,6 +255,7 @@ class App(object):
         self.layers = []
         for k, (gname, gspec, opts, sf, so) in enumerate(specs):
             li = LayerInfo()
+            li.app = self
             li.name = 'l_' + gname
             li.gname = gname
             li.spec = gspec
@@ -270,10 +274,10 @@ class App(object):
         o = li.opts
         dims = llit(sorted(o['dims'].items()), lambda kv: '(%d, (%s, %d))' % (
             DIM_ID[kv[0]], llit([val_id(v) for v in kv[1][0]]), val_id(kv[1][1])))
-        return '(mkLayer %s %d %s %d %d %s %s %s (Some %d) %s %s)' % (
+        return '(mkLayer %s %d %s %d %d %s %s %s (Some %d) %s %s %d)' % (
             li.gc.name, fmt_id('mixed' if o.get('mixed') else o['format']), dims, o['meta'][0], o['meta'][1],
             blit(li.skip_first), blit(li.skip_odd), blit(o['queryable']), li.limit, blit(bool(o.get('mixed'))),
-            blit(bool(o.get('minimize'))))
+            blit(bool(o.get('minimize'))), int(o.get('buffer', 0)))
 
 
 # ----------------------------------------------------------------------------- requests
@@ -381,6 +385,14 @@ def effects_of(li, log):
     return effs, cached, summ
 
 
+def info_offered(li, q):
+    """is the InfoFormat of a GetFeatureInfo request one the service offers (mime type for KVP, suffix or mime type
+    without '/' never)?"""
+    f = q['infofmt']
+    offered = li.app.info_formats
+    return (f in offered.values()) if '/' in f else (f in offered)
+
+
 def ocomp(s, digits_only=False):
     if digits_only and s.startswith('-'):
         return 'None'                      # the REST template accepts [0-9]+ only for TileMatrix
@@ -396,7 +408,7 @@ def treq_term(li, q):
     return '(mkReq %s %s %s %s %s %s [%s] %s %s %s %d %d)' % (
         q['svc'], ocomp(q['x']), ocomp(q['y']), ocomp(q['z'], q['svc'] in ('WmtsRest', 'WmtsRestFI')),
         'None' if q['fmt'] is None else '(Some %d)' % fmt_id(q['fmt']), origin, '; '.join(dims),
-        blit(q['layer'] == li.name), blit(q['gridname'] == li.gname), blit(q['infofmt'] in ('txt', 'text/plain')),
+        blit(q['layer'] == li.name), blit(q['gridname'] == li.gname), blit(info_offered(li, q)),
         q['i'], q['j'])
 
 
@@ -465,7 +477,7 @@ def costly(summ):
 def replay_of(li, app, q, url, ans, summ):
     return {'grid': li.spec, 'layer_options': {'meta_size': li.opts['meta'], 'max_tile_limit': li.opts['max_tiles'],
                                                'dimensions': li.opts['dims'], 'queryable': li.opts['queryable']},
-            'max_output_pixels': app.max_pixels, 'bbox_srs_extent': app.srs_extent, 'mixed_cache': bool(li.opts.get('mixed')), 'minimize_meta_requests': bool(li.opts.get('minimize')), 'request': q, 'url': url, 'answer': ans if isinstance(ans, str) else list(ans),
+            'max_output_pixels': app.max_pixels, 'bbox_srs_extent': app.srs_extent, 'featureinfo_formats': sorted(app.info_formats.items()), 'mixed_cache': bool(li.opts.get('mixed')), 'minimize_meta_requests': bool(li.opts.get('minimize')), 'meta_buffer': li.opts.get('buffer', 0), 'request': q, 'url': url, 'answer': ans if isinstance(ans, str) else list(ans),
             'effects': summ[:40]}
 
 
@@ -483,6 +495,15 @@ def tile_oracle(ctx, li, app, q, url, ans, summ):
     if not known_target:
         if ans == 'Ok' or cost:
             ctx.fail('tile,%s,unknown-layer-served' % svc, 'unknown layer / matrix set answered %r with effects %r' % (ans, cost[:3]), rep)
+        return
+    if is_fi and not info_offered(li, q):
+        if ans == 'Ok':
+            ctx.fail('featureinfo,%s,infoformat-not-offered,answered' % svc,
+                     'GetFeatureInfo with InfoFormat %r (offered: %r) answered 200 with %r: %s' % (
+                         q['infofmt'], sorted(li.app.info_formats.items()), cost[:2], url), rep)
+        elif summ:
+            ctx.fail('featureinfo,%s,infoformat-not-offered,effects' % svc,
+                     'GetFeatureInfo with InfoFormat %r that is not offered caused %r: %s' % (q['infofmt'], summ[:3], url), rep)
         return
     if valid is not True:
         what = 'non-numeric' if valid is None else 'outside-matrix'
@@ -524,7 +545,7 @@ def tile_oracle(ctx, li, app, q, url, ans, summ):
                              'GetFeatureInfo for tile %r asked the upstream for bbox %r, the tile is %r: %s' % (
                                  (x, y, z), e[1], [float(v) for v in want], url), rep)
     if is_fi:
-        if q['infofmt'] in ('txt', 'text/plain') and li.opts['queryable'] and ans != 'Ok' and \
+        if info_offered(li, q) and li.opts['queryable'] and ans != 'Ok' and \
                 not (svc.startswith('Wmts') and not li.wmts_ok):
             ctx.fail('tile,%s,valid-refused' % svc, 'valid GetFeatureInfo refused with %r: %s' % (ans, url), rep)
         return
@@ -613,7 +634,7 @@ def gen_tile_requests(ctx, li, count):
         elif r < 0.06:
             q['gridname'] = 'nogrid'
         elif r < 0.09 and svc.endswith('FI'):
-            q['infofmt'] = 'html' if svc == 'WmtsRestFI' else 'text/html'
+            q['infofmt'] = rng.choice(['html', 'exe', 'plain']) if svc == 'WmtsRestFI' else rng.choice(['text/html', 'application/x-not-offered', 'txt', 'plain'])
         out.append(q)
     return out
 
@@ -962,9 +983,9 @@ def run(ctx):
                 o = {'meta': opts.get('meta_size', [1, 1]), 'max_tiles': opts.get('max_tile_limit'),
                      'dims': dict((k, (v[0], v[1])) for k, v in opts.get('dimensions', {}).items()),
                      'queryable': opts.get('queryable', True), 'mixed': opts.get('mixed', False),
-                     'minimize': opts.get('minimize', False), 'format': 'png'}
+                     'minimize': opts.get('minimize', False), 'buffer': opts.get('meta_buffer', 0), 'format': 'png'}
                 app = App(ctx, [('gc', doc['grid'], o, doc.get('skip_first', False), doc.get('skip_odd', False))],
-                          doc.get('max_output_pixels'), doc.get('bbox_srs_extent'))
+                          doc.get('max_output_pixels'), doc.get('bbox_srs_extent'), doc.get('featureinfo_formats', True))
                 prepare(app, col, seq)
                 li = app.layers[0]
                 for q in doc.get('tile_requests', []):
@@ -1008,7 +1029,7 @@ def run(ctx):
                               max(b0[2], b1[2]) - rng.randrange(-200, 900), max(b0[3], b1[3]) - rng.randrange(-200, 900)]
                 if not (srs_extent[0] < srs_extent[2] and srs_extent[1] < srs_extent[3]):
                     srs_extent = [min(b0[0], b1[0]), min(b0[1], b1[1]), max(b0[2], b1[2]), max(b0[3], b1[3])]
-            app = App(ctx, specs, maxpix, srs_extent)
+            app = App(ctx, specs, maxpix, srs_extent, info_formats=(a != 1 and rng.random() < 0.7))
             prepare(app, col, seq)
             di = DirectInfo()
             for m in gen_direct_requests(ctx, app, ctx.n(40, 80)):
